@@ -55,7 +55,10 @@ def strategy(draw):
                 max_iterations=draw(st.sampled_from([1, 2, 3, 5, 50, 50])),
                 dist_fn=draw(st.sampled_from(["lognormal", "normal"])), dist_mc=draw(st.sampled_from(["lognormal", "normal"])),
                 range=rng, perm_seed=draw(st.integers(0, 10 ** 6)), k=draw(st.sampled_from([-4, -1, 1, 3])),
-                pre_td=pre_td)
+                pre_td=pre_td,
+                # windows rejected by hand beforehand; the call repeats the object's own search range and find_peaks options, so the
+                # peak search on entry changes nothing and the algorithm starts from that accept state
+                prior=(dict(frac=draw(st.sampled_from([0.1, 0.2, 0.35])), seed=draw(gen.seeds32)) if (pre_td == "none" and draw(gen.chance(4))) else None))
 
 
 BIG = {"quick": 64, "thorough": 640}
@@ -123,7 +126,7 @@ def _peak(f, a, rng):
     return main, len(res) > 1
 
 
-def ref_fdwr(f, A, n, max_it, dfn, dmc, rng):
+def ref_fdwr(f, A, n, max_it, dfn, dmc, rng, init=None):
     """Independent implementation of the published loop.
     Returns dict(status='ok'|'degenerate'|'ambiguous', valid, count, margin, masks)."""
     f = np.asarray(f)
@@ -135,7 +138,7 @@ def ref_fdwr(f, A, n, max_it, dfn, dmc, rng):
         amb |= am
     has = np.array([i is not None for i in pk_idx])
     pk = np.array([f[i] if i is not None else np.nan for i in pk_idx])
-    valid = has.copy()
+    valid = has.copy() if init is None else (has & np.asarray(init, dtype=bool))
     masks = [valid.copy()]
     trace = []
     margin = math.inf
@@ -218,7 +221,7 @@ class _Capture(logging.Handler):
             self.window_masks.append(np.array([t == "True" for t in toks]))
 
 
-def _run(hv, obj, case, rng):
+def _run(hv, obj, case, rng, kw=None):
     logger = logging.getLogger("hvsrpy.window_rejection")
     cap = _Capture()
     old_level, old_prop = logger.level, logger.propagate
@@ -227,7 +230,7 @@ def _run(hv, obj, case, rng):
     logger.propagate = False
     try:
         count = sut(hv.frequency_domain_window_rejection, obj, n=case["n"], max_iterations=case["max_iterations"],
-                    distribution_fn=case["dist_fn"], distribution_mc=case["dist_mc"], search_range_in_hz=tuple(rng),
+                    distribution_fn=case["dist_fn"], distribution_mc=case["dist_mc"], search_range_in_hz=tuple(rng), find_peaks_kwargs=kw,
                     allow=(ValueError,), what="frequency_domain_window_rejection")
     finally:
         logger.removeHandler(cap)
@@ -254,8 +257,26 @@ def check_case(case):
             return hv.HvsrAzimuthal([hv.HvsrTraditional(f, A) for A in gs], [float(i * 180.0 / len(gs)) for i in range(len(gs))])
         return hv.HvsrTraditional(f, gs[0])
 
-    refs = [ref_fdwr(f, A, case["n"], case["max_iterations"], case["dist_fn"], case["dist_mc"], rng) for A in groups]
-    obj = build(groups)
+    prior = case.get("prior")
+    inits, kw = [None] * len(groups), None
+    if prior:
+        g_ = np.random.Generator(np.random.PCG64(prior["seed"]))
+        inits = [g_.random(len(A)) >= prior["frac"] for A in groups]
+        kw = {}
+        labels.append("windows-rejected-beforehand")
+
+    def prepare(o, masks):
+        """object state before the call in the 'prior' scenario: own range/options set, some windows rejected by hand"""
+        if not prior:
+            return o
+        for t, m in zip(o.hvsrs if az else [o], masks):
+            t.update_peaks_bounded(tuple(rng), {})
+            t.valid_window_boolean_mask = np.asarray(t.valid_window_boolean_mask, dtype=bool) & m
+            t.valid_peak_boolean_mask = np.asarray(t.valid_peak_boolean_mask, dtype=bool) & m
+        return o
+
+    refs = [ref_fdwr(f, A, case["n"], case["max_iterations"], case["dist_fn"], case["dist_mc"], rng, init) for A, init in zip(groups, inits)]
+    obj = prepare(build(groups), inits)
     if case.get("pre_td", "none") != "none":
         # history: a time-domain rejection that keeps every window was applied to the same object before
         # (the algorithm's own peak search on entry defines the starting accept state, so the reference is unchanged)
@@ -271,7 +292,7 @@ def check_case(case):
         require(len(kept) == len(recs), "harness: the preparatory time-domain rejection was meant to keep every window")
         labels.append("after-time-domain-rejection")
     try:
-        count, logs = _run(hv, obj, case, rng)
+        count, logs = _run(hv, obj, case, rng, kw)
         first_iterations = _run.last_iterations
     except Refusal as r:
         if all(rf["status"] == "ok" for rf in refs) and min(rf["margin"] for rf in refs) >= 1e-9:
@@ -351,14 +372,14 @@ def check_case(case):
     # metamorphic: permutation of the windows, rescaling of the amplitudes
     perm_rng = np.random.Generator(np.random.PCG64(case["perm_seed"]))
     perms = [perm_rng.permutation(len(A)) for A in groups]
-    pobj = build([A[p] for A, p in zip(groups, perms)])
-    pcount, _ = _run(hv, pobj, case, rng)
+    pobj = prepare(build([A[p] for A, p in zip(groups, perms)]), [None if m is None else m[p] for m, p in zip(inits, perms)])
+    pcount, _ = _run(hv, pobj, case, rng, kw)
     for j, (h, rf, p) in enumerate(zip(pobj.hvsrs if az else [pobj], refs, perms)):
         if not np.array_equal(np.asarray(h.valid_window_boolean_mask, dtype=bool), rf["valid"][p]):
             raise Violation(f"decisions depend on the order of the windows (azimuth {j})")
     require(pcount == count, f"iteration count depends on the order of the windows ({pcount} vs {count})")
-    sobj = build([A * 2.0 ** case["k"] for A in groups])
-    scount, _ = _run(hv, sobj, case, rng)
+    sobj = prepare(build([A * 2.0 ** case["k"] for A in groups]), inits)
+    scount, _ = _run(hv, sobj, case, rng, kw)
     for j, (h, rf) in enumerate(zip(sobj.hvsrs if az else [sobj], refs)):
         if not np.array_equal(np.asarray(h.valid_window_boolean_mask, dtype=bool), rf["valid"]):
             raise Violation(f"decisions change when all amplitudes are multiplied by 2^{case['k']} (azimuth {j})")
